@@ -100,6 +100,18 @@ _WEAKER_THAN_NOT = frozenset({'OR', 'AND', 'UNION', 'EXCEPT', 'INTERSECT'})
 _TIGHTER_THAN_UMINUS = frozenset({'^', '{'})
 
 
+def _skip_empty_shapes(node: qlast.Base) -> qlast.Base:
+    # A shape without elements is printed as (and parsed back to) its
+    # subject alone.
+    while (
+        isinstance(node, qlast.Shape)
+        and not node.elements
+        and node.expr is not None
+    ):
+        node = node.expr
+    return node
+
+
 def _prefix_swallows_op(node: qlast.Base, op: str) -> bool:
     """Check if *node*, printed right before *op*, would swallow it.
 
@@ -109,6 +121,7 @@ def _prefix_swallows_op(node: qlast.Base, op: str) -> bool:
     same goes for the subject of a shape: `(<T>x) {a}`.
     """
     while True:
+        node = _skip_empty_shapes(node)
         if isinstance(node, qlast.UnaryOp):
             unary_op = str(node.op).upper()
             if unary_op == 'NOT':
@@ -514,11 +527,12 @@ class EdgeQLSourceGenerator(codegen.SourceGenerator):
     def visit_DetachedExpr(self, node: qlast.DetachedExpr) -> None:
         self._write_keywords('DETACHED ')
         # DETACHED binds tighter than `.`, `[]` and shapes.
+        expr = _skip_empty_shapes(node.expr)
         parenthesize = (
-            isinstance(node.expr, (qlast.Indirection, qlast.Shape))
+            isinstance(expr, (qlast.Indirection, qlast.Shape))
             or (
-                isinstance(node.expr, qlast.Path)
-                and len(node.expr.steps) > 1
+                isinstance(expr, qlast.Path)
+                and len(expr.steps) > 1
             )
         )
         if parenthesize:
@@ -654,8 +668,16 @@ class EdgeQLSourceGenerator(codegen.SourceGenerator):
                     self.write('.')
 
             if i == 0:
-                if isinstance(
-                    e,
+                head = _skip_empty_shapes(e)
+                if (
+                    head is not e
+                    and isinstance(head, qlast.Path)
+                    and not head.partial
+                ):
+                    # `Foo {}.bar` is `Foo.bar`
+                    self.visit(head)
+                elif isinstance(
+                    head,
                     (
                         qlast.ObjectRef,
                         qlast.Anchor,
@@ -668,7 +690,7 @@ class EdgeQLSourceGenerator(codegen.SourceGenerator):
                         qlast.Parameter,
                     ),
                 ):
-                    self.visit(e)
+                    self.visit(head)
                 else:
                     self.write('(')
                     self.visit(e)
@@ -677,6 +699,9 @@ class EdgeQLSourceGenerator(codegen.SourceGenerator):
                 self.visit(e)
 
     def visit_Shape(self, node: qlast.Shape) -> None:
+        if node.expr is not None and not node.elements:
+            self.visit(node.expr)
+            return
         if node.expr is not None:
             self._visit_left_operand(node.expr, '{')
             self.write(' ')
